@@ -13,7 +13,7 @@ CLAIMS = {
          'for operands in range is a three-line arithmetic argument, stated in DESIGN.md, not a machine step); B chroma rounding folded over every sum in '
          '[-16384,16383] against the sixteenth-position table, and the sum of exactly mv[0..3]; C MVD_TABLE (folded from const MIR) against the 64 code words of '
          'Table 14, HalfPel::from = floor(2x); D the three candidates selected in each of the 4 x 8 (block index, border class) cases incl. the neighbour block '
-         'indices; E median_of over all 13 weak orderings, component-wise for vectors; F zero candidates from intra / not-coded macroblocks; M mv_decode pairs predictor.x with differential.x and predictor.y with differential.y, the MotionVector conversions and addition keep the component order, '
+         'indices; E median_of over all 13 weak orderings, component-wise for vectors; F zero candidates from intra / not-coded macroblocks (the vector array is zeroed inside the macroblock loop before it is written and recorded); M mv_decode pairs predictor.x with differential.x and predictor.y with differential.y, the MotionVector conversions and addition keep the component order, '
          'and vector k of a macroblock is mv_decode(picture, options, predict_candidate(.., k), MVD_k) (vectors 2..4 copies of vector 1 without four vectors); MB which bits are the differentials: '
          'decode_motion_vector reads x then y with MVD_TABLE (UMV code only with PLUSPTYPE), decode_macroblock reads MVD for the inter types and MVD2-4 for the four-vector types of Table 9 (predicates folded over all types).',
     technique='if-conversion + canonical forms + decision-table comparison; constant folding over finite domains; const-table folding', ref='6/C12'),
@@ -23,7 +23,7 @@ CLAIMS = {
          'B the interval reading shows no intermediate overflow for Q in [0,31], L in [-1024,1023] (found D3: i16 product, fixed) and both ranges are checked '
          'at their producers; W escape LEVEL width is 7/11 by one bit exactly under Sorenson version 1, else 8, RUN 6 bits; C IntraDc::from_u8 / into_level folded '
          'over all 256 codes; D the DQUANT code table and the update form clamp(q + dq, 1, 31); DQ that update tabulated with Rust cast / overflow semantics, casts as written, '
-         'over all 32 x 5 (quantizer, DQUANT) pairs; narrowing / sign-changing casts whose operand range does not fit are obligations like overflows; MB the DQUANT code table, TCOEF against Table 16 and the '
+         'over all 32 x 5 (quantizer, DQUANT) pairs; P the zig-zag cursor of inverse_rle (position = cursor + RUN, abandoned iff position >= 64, next = position + 1) evaluated on the SSA order of its updates for every (cursor, RUN); narrowing / sign-changing casts whose operand range does not fit are obligations like overflows; MB the DQUANT code table, TCOEF against Table 16 and the '
          'escape forms (8-bit LEVEL, Sorenson v1 7 / 11-bit by flag, 6-bit RUN, LAST) as decision tables of decode_dquant / decode_block. What the coefficient does to decoded samples is C02.',
     technique='def-use expression -> canonical-form equality against the written-out formula; interval abstract interpretation; constant folding of finite tables', ref='6/C11'),
  'C09': dict(
@@ -55,7 +55,7 @@ CLAIMS = {
          'terminator (bounds, +-*<<>> overflow with overflow checks on, division/remainder by zero), every narrowing / sign-changing integer cast whose operand range does not fit, and every panicking external call reachable from the 7 '
          'pub fns of H263State (405 sites in 172 functions); 383 are discharged by an interval / option-state / symbolic-bound abstract interpretation under '
          'a contracts table that is itself checked at every producer; the 22 relational ones must match the reviewed-safe table, each entry void unless its '
-         'mechanism rules hold (M1 clamp provenance, M2/M3 clamped extents, M4 fast-path guard set, M5 reference dimensions, M7 macroblock-count bound, '
+         'mechanism rules hold (M1 clamp provenance, M2/M3 clamped extents, M4 fast-path guard set, M5 the reference and the new picture are compared by (width, height) and every gather_block call lies on the equal side, M7 macroblock-count bound, '
          'M9 frozen picture fields, M10 reader position discipline, M11 UMV counters); M8 no Result dropped; no recursion; all 30 loops classified '
          '(finite iterator / input-consuming / consuming+counter). Found and fixed D1, D2, D3, D4, D12. Residue size is reported in the evidence.',
     technique='abstract interpretation (intervals + option state + symbolic bounds) over MIR with checked contracts; structural mechanism rules; loop classification',
@@ -76,7 +76,8 @@ CLAIMS = {
          'resynchronisation probe decode_gob / decode_picture are union transactions whose Ok(None) arm leaves the loop without consuming, only outside '
          'Sorenson mode (is_sorenson() = decoder_options.contains(SORENSON_SPARK_BITSTREAM)); T7/T4 a failed macroblock or block parse consumes nothing; CM exactly one commit(), after the loop, on every Ok path, with no '
          'reader movement between loop exit and commit; and what commit() and read_bits() do to the position (C14 E: commit = drain(0..pos/8); pos %= 8, C14 C: read = peek + skip) '
-         're-run here. Hence on success the position is the end of the last macroblock and padding is never read.',
+         're-run here. PS decode_picture skips 17 + the stuffing count recognize_start_code reports; MC mb_per_line and mb_height are ceil(dim/16) for every u16 dimension (tabulated). '
+         'Hence on success the position is the end of the last macroblock and padding is never read.',
     technique='loop/dominance/control-dependence rules with structural expression matching over MIR; mod/ref effects', ref='6/C15'),
  'C04': dict(
     text='Static, all histories by induction over one call: the state-update discipline of H263State is decided on MIR. R1 accessor guard/key '
@@ -102,7 +103,7 @@ CLAIMS = {
          'zig-zag scan, a bijection; D the macroblock body: block k of macroblock n is decoded with CBP entry k and dequantised into its plane\'s level array at '
          'origin + (8(k&1), 8(k>>1)) (chroma origin/2), origin = ((n mod mbpl)16, (n div mbpl)16), mbpl = ceil(w/16) tabulated over all u16 widths, with the blocks-per-line '
          'idct_channel later uses with that array, that plane\'s samples and row length; level arrays 4 mbpl mbh / mbpl mbh; inverse_rle\'s block index; H quantizer tracking '
-         '(clamp(q + dquant, 1, 31) once per coded macroblock before its six blocks); and re-run on this tree: dequantisation form + INTRADC mapping (C11 A, C), the IDCT '
+         '(clamp(q + dquant, 1, 31) once per coded macroblock before its six blocks); and re-run on this tree: dequantisation form, INTRADC mapping and the zig-zag cursor (C11 A, C, P), the IDCT '
          'clauses (C10 A, B, C, E); '
          'MB the macroblock / block layer syntax: the VLC tables TCOEF, MCBPC (I-pictures) and CBPY folded from const MIR and compared as code word -> event maps with Tables 16, 7 and 13 of H.263, the Table 9 type predicates folded over all six types, and the decision tables of decode_macroblock, decode_dquant and decode_block (consuming reads with table / width, presence condition and order; every field of the result; the coefficient appended per event; LAST ending the loop; Sorenson v1 escape widths) compared as Boolean functions with the syntax of 5.3 / 5.4; Plane allocation is C13 P.',
     technique='const-table folding; call-site agreement over loop-index-normalised def-use terms (polynomial normal form, closed forms tabulated over the full u16 domain with Rust integer semantics); dominance for update-before-use; decision-table extraction + semantic DNF comparison for the macroblock / block syntax', ref='6/C02'),
@@ -125,7 +126,7 @@ CLAIMS = {
          'mismatch) with the table of H.263 5.1 / Sorenson Spark written from the standard: all PTYPE / OPPTYPE / MPPTYPE bits and markers, source-format and '
          'picture-type codes, CPFMT/EPAR/CPCFC/ETR/UUI/ELNUM/RPSMF/TRPI/BCI/TRB/DBQUANT fields, Sorenson size and type codes, the PEI loop shape (L), which read '
          'feeds which Picture field (found D8 PTYPE bit-9 polarity and D9 9-bit PHI: fixed). I: the inherited option sets; B: flag constants disjoint; '
-         'H: DecodedPicture stores the parsed header and the format in force unmodified, sizes its planes from it, nobody else writes them; S: standard format sizes. '
+         'H: DecodedPicture stores the parsed header and the format in force unmodified, sizes its planes from it, nobody else writes them; S: standard format sizes, a custom format its own indications, and no size exactly for Reserved or a zero dimension. '
          'RPRP is present exactly in RPR mode or when a previous picture exists whose format differs (|p| p.format != format checked). Not decided: which of the two SSS bits is RECTANGULAR_SLICES; that read_bits returns MSB-first integers is C04/C05/C14 territory.',
     technique='decision-table extraction from MIR (path conditions in a bit-slice domain, reaching definitions, set-insertion model of |=) + semantic DNF comparison with a written-out specification table; who-may-write effect rule; const folding', ref='6/C06'),
  'C10': dict(
@@ -149,7 +150,7 @@ CLAIMS = {
          'ceil(w/2.0) is tabulated exactly over the whole u16 domain and equals div_ceil(w, 2); chroma_samples_per_row = cw; G the nine accessors return exactly those '
          'fields as slices; R the plane vectors are private and the only use of &mut Vec in the module is deref_mut (a slice cannot change length); Q yuv420_to_rgba cuts chroma '
          'rows at (row/2)*CW with CW a function equal to ceil(width/2) on the whole domain, loops over len(y)/width rows, returns vec![0; 4*len(y)] (exactly width*height pixels), '
-         'empty shortcut before any division; J2/S the strength table has 32 entries = Table J.2 with values 1..12 for quantizers 1..31 and Picture.quantizer is a 5-bit read. '
+         'empty shortcut before any division; C06.S every format that has a size has width, height >= 1; J2/S the strength table has 32 entries = Table J.2 with values 1..12 for quantizers 1..31 and Picture.quantizer is a 5-bit read. '
          'deblock() accepting every such plane: C16\'s mechanism rules, panic inventory and termination re-run here (C16.*). NOT decided: panic-freedom of the slice arithmetic inside yuv420_to_rgba (relational; see C08).',
     technique='closed-form agreement between producer and consumer (terms tabulated over the full finite domain); visibility / who-may-resize rule; const-table folding', ref='6/C13'),
  'C17': dict(
